@@ -102,6 +102,18 @@ OverlapIds(t, rng) ==
 UsedTabs(mb) == {Spans[i].tab : i \in {i \in 1..N : Spans[i].api = "runtime" /\ Spans[i].ok /\ Spans[i].modbus = mb}}
 TabOverlap2 == [t \in 1..Len(Tables) |-> IF t \in UsedTabs(TRUE) THEN OverlapIds(t, TabRange2[t]) ELSE {}]
 TabOverlap1 == [t \in 1..Len(Tables) |-> IF t \in UsedTabs(FALSE) THEN OverlapIds(t, TabRange1[t]) ELSE {}]
+\* "exactly its own registers": the extent a sensor declares (size_, which the single-register reads are sized from) is the
+\* extent of its documented type
+SizedTypes == RawTypes \cup {"Timestamp", "EcoModeV1", "EcoModeV2", "Schedule", "PeakShavingMode", "Long", "LongS",
+                             "EnumBitmap4", "Integer", "IntegerS", "Decimal", "Enum2"}
+TabSize == [t \in 1..Len(Tables) |->
+              {Tables[t][k].id : k \in {k \in 1..Len(Tables[t]) : /\ Tables[t][k].ty \in SizedTypes \ {"ByteL", "EnumL", "ByteH", "EnumH", "Byte", "Enum"}
+                                                                 /\ Size(Tables[t][k].ty) >= 2
+                                                                 /\ Tables[t][k].size # 0
+                                                                 /\ Tables[t][k].size # Size(Tables[t][k].ty)}}]
+JudgeSize(sp) ==
+    IF sp.api \notin {"runtime", "settings"} \/ ~sp.ok THEN {} ELSE {"C12.Size:" \o id : id \in TabSize[sp.tab]}
+
 JudgeOverlap(sp) ==
     IF sp.api # "runtime" \/ ~sp.ok THEN {}
     ELSE {"C12.Overlap:" \o id : id \in (IF sp.modbus THEN TabOverlap2[sp.tab] ELSE TabOverlap1[sp.tab])}
@@ -163,7 +175,7 @@ CodeEntries(sp, tab, e) == {j \in 1..Len(tab) : /\ tab[j].ty \in CodeTypes /\ ta
 SmallInt(v) == IF v.a[2] = 1 THEN -v.a[Len(v.a)] ELSE v.a[Len(v.a)]
 
 JudgeLabel(sp, tab, e) ==
-    IF ~Has(sp, e.id) \/ CodeEntries(sp, tab, e) = {} THEN {}
+    IF ~Has(sp, e.id) \/ CodeEntries(sp, tab, e) = {} \/ BytesAt(sp, e.addr, Size(e.ty)) = <<>> THEN {}
     ELSE LET c == tab[CHOOSE j \in CodeEntries(sp, tab, e) : TRUE] IN
          IF ~Has(sp, c.id) \/ Res(sp, c.id).k # "num" \/ Len(Res(sp, c.id).a) # 3 THEN {}
          ELSE IF Res(sp, e.id) = Lookup(Par(e).labels, SmallInt(Res(sp, c.id))) THEN {} ELSE {"C13.Label:" \o e.id}
@@ -171,8 +183,10 @@ JudgeLabel(sp, tab, e) ==
 \* 4-byte bitmap next to the Long at the same address
 LongEntries(sp, tab, e) == {j \in 1..Len(tab) : tab[j].ty = "Long" /\ tab[j].addr = e.addr /\ TabLast[sp.tab][j]}
 WordsOfNum(v) == LET l == Limbs(v) IN IF Len(l) = 1 THEN <<0, l[1]>> ELSE <<l[1], l[2]>>
+\* (judged when the response holds all four bytes of the pair: an answer cut inside the field is outside the register
+\* contents the statement quantifies over)
 JudgeBitmap4(sp, tab, e) ==
-    IF ~Has(sp, e.id) \/ LongEntries(sp, tab, e) = {} THEN {}
+    IF ~Has(sp, e.id) \/ LongEntries(sp, tab, e) = {} \/ BytesAt(sp, e.addr, 4) = <<>> THEN {}
     ELSE LET c == tab[CHOOSE j \in LongEntries(sp, tab, e) : TRUE] IN
          IF ~Has(sp, c.id) \/ Res(sp, c.id).k # "num" THEN {}
          ELSE LET w == WordsOfNum(Res(sp, c.id)) IN
@@ -380,7 +394,10 @@ JudgeReadOnly(sp0) ==
 
 \* C16: read_sensor(id) of a listed id: the bulk value, or ValueError where the bulk value is None
 JudgeSameAsBulk(sp) ==
-    IF ~sp.single \/ sp.bulk.k = "absent" THEN {}
+    \* a listed id for which the preceding bulk read of the same registers reported nothing at all: there is no value the
+    \* single read could agree with
+    IF sp.single /\ sp.bulkmiss THEN {"C16.ListedNotInBulk:" \o Tables[sp.tab][sp.entry].id}
+    ELSE IF ~sp.single \/ sp.bulk.k = "absent" THEN {}
     ELSE LET e == Tables[sp.tab][sp.entry] IN
          IF sp.ok THEN (IF sp.bulk.k = "coarse" \/ sp.res[e.id].k = "coarse" \/ ValEq(sp.bulk, sp.res[e.id]) THEN {}
                         ELSE {"C16.SameAsBulk:" \o e.id})
@@ -413,7 +430,7 @@ Judge(sp0) ==
     LET sp == [sp0 EXCEPT !.resp = RespInfo(sp0)] IN
     JudgeWrite(sp0, sp) \cup
     (IF sp.decode THEN (IF sp.single THEN JudgeSingle(sp) ELSE JudgeBulk(sp)) ELSE {})
-    \cup JudgeWindow(sp) \cup JudgeKeys(sp) \cup JudgeReadOnly(sp0) \cup JudgeSameAsBulk(sp) \cup JudgeOverlap(sp)
+    \cup JudgeWindow(sp) \cup JudgeKeys(sp) \cup JudgeReadOnly(sp0) \cup JudgeSameAsBulk(sp) \cup JudgeOverlap(sp) \cup JudgeSize(sp)
 
 VARIABLES sid, done
 vars == <<sid, done>>
